@@ -180,11 +180,12 @@ def suppressSeam (srv : Server) (p : ParsedReq) : Seam Bool :=
   else .ret false
 
 /-- the error arm as the engine sees it -/
-def errorOutcome (env : Env) (status : Nat) : Outcome :=
+def errorOutcome (env : Env) (status : Nat) (head : Bool := false) : Outcome :=
   if !env.upAtSend then .nothing
-  else if env.enqueueOk then .respond (errorWire status) env.upAtClose else .sendFailed env.upAtClose
+  else if env.enqueueOk then .respond (errorWire status head) env.upAtClose else .sendFailed env.upAtClose
 
-theorem outcomeOf_errorArm (env : Env) (status : Nat) : outcomeOf env (errorArm env status, false) = errorOutcome env status := by
+theorem outcomeOf_errorArm (env : Env) (status : Nat) (head : Bool) :
+    outcomeOf env (errorArm env status head, false) = errorOutcome env status head := by
   unfold errorArm errorOutcome outcomeOf
   cases env.upAtSend <;> cases env.upAtClose <;> cases env.enqueueOk <;> simp
 
@@ -195,14 +196,14 @@ theorem outcomeOf_normalSend (env : Env) (w : Bytes) (c : Bool) : outcomeOf env 
 theorem process_shutdown (srv : Server) (env : Env) (data : Bytes) (h : env.shutdownAtEntry = true) :
     process srv env data =
       if env.transportAtEntry then
-        (if env.enqueueOk then .respond shutdownWire env.transportAtShutdownClose else .sendFailed env.transportAtShutdownClose)
+        (if env.enqueueOk then .respond (shutdownWire (isHeadRaw data)) env.transportAtShutdownClose else .sendFailed env.transportAtShutdownClose)
       else .nothing := by
   simp only [process, processCalls, h, if_true]
   cases ht : env.transportAtEntry <;> cases he : env.enqueueOk <;> cases hc : env.transportAtShutdownClose <;> simp [outcomeOf, he]
 
 theorem process_error (srv : Server) (env : Env) (data : Bytes) (e : ParseErr)
     (h : env.shutdownAtEntry = false) (hp : fromWireFormat data = .error e) :
-    process srv env data = errorOutcome env (errStatus e) := by
+    process srv env data = errorOutcome env (errStatus e) (isHeadRaw data) := by
   cases e <;> simp [process, processCalls, h, hp, errStatus, outcomeOf_errorArm]
 
 /-- does one of the `n` passes starting at pass `k` throw? -/
@@ -285,12 +286,12 @@ theorem process_upgrade (srv : Server) (env : Env) (data : Bytes) (p : ParsedReq
 /-- a seam that throws: a `std::exception` always, anything else since the arm is `catch (...)`, ends in the error arm's 500 -/
 theorem process_upgrade_threw (srv : Server) (env : Env) (data : Bytes) (p : ParsedReq) (std : Bool)
     (h : env.shutdownAtEntry = false) (hp : fromWireFormat data = .ok p) (hu : upgradeSeam srv p = .threw std) :
-    process srv env data = errorOutcome env 500 := by
+    process srv env data = errorOutcome env 500 (isHeadRaw data) := by
   have hg : Gen.HttpRespond.errCatchesAll = true := by decide
   have hd : Gen.HttpRespond.errDefaultStatus = 500 := by decide
   unfold upgradeSeam at hu
   simp only [process, processCalls, h, hp, hu, seamThrew, hg, Bool.or_true, if_true, hd]
-  exact outcomeOf_errorArm env 500
+  exact outcomeOf_errorArm env 500 _
 
 theorem process_ok (srv : Server) (env : Env) (data : Bytes) (p : ParsedReq) (b : Bool)
     (h : env.shutdownAtEntry = false) (hp : fromWireFormat data = .ok p) (hu : upgradeSeam srv p = .ret none)
@@ -328,7 +329,7 @@ theorem process_ok (srv : Server) (env : Env) (data : Bytes) (p : ParsedReq) (b 
 theorem process_suppress_threw (srv : Server) (env : Env) (data : Bytes) (p : ParsedReq) (std : Bool)
     (h : env.shutdownAtEntry = false) (hp : fromWireFormat data = .ok p) (hu : upgradeSeam srv p = .ret none)
     (hs : suppressSeam srv p = .threw std) :
-    process srv env data = errorOutcome env 500 := by
+    process srv env data = errorOutcome env 500 (isHeadRaw data) := by
   have hg : Gen.HttpRespond.errCatchesAll = true := by decide
   have hd' : Gen.HttpRespond.errDefaultStatus = 500 := by decide
   unfold upgradeSeam at hu
@@ -347,7 +348,7 @@ theorem process_suppress_threw (srv : Server) (env : Env) (data : Bytes) (p : Pa
       simp only [hsup, Bool.false_eq_true, if_false] at hs ⊢
       rw [hs]
       simp only [seamThrew, hg, Bool.or_true, if_true, hd']
-      exact outcomeOf_errorArm env 500
+      exact outcomeOf_errorArm env 500 _
 
 /-! ### O1: exactly one response when the server is up -/
 
@@ -424,8 +425,8 @@ theorem sendBlock_up (env : Env) (w : Bytes) (c : Bool) (h2 : env.upAtSend = tru
     sendBlock env w c = .respond w (c && env.upAtClose) := by
   simp [sendBlock, h2, h3]
 
-theorem errorOutcome_up (env : Env) (st : Nat) (h2 : env.upAtSend = true) (h3 : env.enqueueOk = true) :
-    errorOutcome env st = .respond (errorWire st) env.upAtClose := by
+theorem errorOutcome_up (env : Env) (st : Nat) (head : Bool) (h2 : env.upAtSend = true) (h3 : env.enqueueOk = true) :
+    errorOutcome env st head = .respond (errorWire st head) env.upAtClose := by
   simp [errorOutcome, h2, h3]
 
 /-- server up: every extracted request is answered by exactly one Send, or explicitly suppressed — also when a subclass
@@ -438,13 +439,13 @@ theorem process_up_cases (srv : Server) (env : Env) (data : Bytes)
   cases hp : fromWireFormat data with
   | error e =>
     left
-    rw [process_error srv env data e h1 hp, errorOutcome_up env _ h2 h3]
+    rw [process_error srv env data e h1 hp, errorOutcome_up env _ _ h2 h3]
     exact ⟨_, _, rfl⟩
   | ok p =>
     cases hu : upgradeSeam srv p with
     | threw std =>
       left
-      rw [process_upgrade_threw srv env data p std h1 hp hu, errorOutcome_up env _ h2 h3]
+      rw [process_upgrade_threw srv env data p std h1 hp hu, errorOutcome_up env _ _ h2 h3]
       exact ⟨_, _, rfl⟩
     | ret o =>
       cases o with
@@ -456,7 +457,7 @@ theorem process_up_cases (srv : Server) (env : Env) (data : Bytes)
         cases hs : suppressSeam srv p with
         | threw std =>
           left
-          rw [process_suppress_threw srv env data p std h1 hp hu hs, errorOutcome_up env _ h2 h3]
+          rw [process_suppress_threw srv env data p std h1 hp hu hs, errorOutcome_up env _ _ h2 h3]
           exact ⟨_, _, rfl⟩
         | ret b =>
           rw [process_ok srv env data p b h1 hp hu hs]
@@ -469,14 +470,14 @@ theorem process_up_cases (srv : Server) (env : Env) (data : Bytes)
 /-- at most one `sendAsync`, at most one `close`, and never a `sendAsync` after a `close` -/
 def CallsShaped (l : List Call) : Prop := l = [] ∨ l = [.close] ∨ ∃ w, l = [.sendAsync w] ∨ l = [.sendAsync w, .close]
 
-theorem errorArm_shaped (env : Env) (st : Nat) : CallsShaped (errorArm env st) := by
+theorem errorArm_shaped (env : Env) (st : Nat) (head : Bool) : CallsShaped (errorArm env st head) := by
   unfold errorArm CallsShaped
   cases env.upAtSend <;> cases env.upAtClose <;> simp
 
-theorem seamThrew_shaped (env : Env) (std : Bool) : CallsShaped (seamThrew env std) := by
+theorem seamThrew_shaped (env : Env) (std : Bool) (head : Bool) : CallsShaped (seamThrew env std head) := by
   unfold seamThrew
   split
-  · exact errorArm_shaped _ _
+  · exact errorArm_shaped _ _ _
   · simp [CallsShaped]
 
 theorem normalSend_shaped (env : Env) (w : Bytes) (c : Bool) : CallsShaped (normalSend env w c) := by
@@ -490,10 +491,10 @@ theorem processCalls_shape (srv : Server) (env : Env) (data : Bytes) : CallsShap
   split
   · split <;> (try split) <;> simp [CallsShaped]
   · split
-    · exact errorArm_shaped _ _
+    · exact errorArm_shaped _ _ _
     · simp only
       split
-      · exact seamThrew_shaped _ _
+      · exact seamThrew_shaped _ _ _
       · rw [drainCalls_eq]
         split <;> split <;> simp [CallsShaped]
       · generalize dispatch _ _ = dr
@@ -502,7 +503,7 @@ theorem processCalls_shape (srv : Server) (env : Env) (data : Bytes) : CallsShap
         split
         · simp [CallsShaped]
         · split
-          · exact seamThrew_shaped _ _
+          · exact seamThrew_shaped _ _ _
           · simp [CallsShaped]
           · exact normalSend_shaped _ _ _
 
@@ -527,17 +528,17 @@ theorem engineCmds_count (env : Env) (l : List Call) (h : CallsShaped l) : count
 
 /-- pool overflow, every environment: nothing while the transport is down, otherwise the 503 and the Close — and the Close
     also when the engine refused the Send, so an overflowing request never leaves its connection open and unanswered -/
-theorem overflowCalls_cmds (env : Env) :
-    engineCmds env (overflowCalls env) =
-      if !env.upAtSend then [] else if env.enqueueOk then [.send overflowWire, .close] else [.close] := by
+theorem overflowCalls_cmds (env : Env) (head : Bool) :
+    engineCmds env (overflowCalls env head) =
+      if !env.upAtSend then [] else if env.enqueueOk then [.send (overflowWire head), .close] else [.close] := by
   unfold overflowCalls
   cases env.upAtSend <;> cases he : env.enqueueOk <;> simp [engineCmds, he]
 
-theorem overflowCalls_shaped (env : Env) : CallsShaped (overflowCalls env) := by
+theorem overflowCalls_shaped (env : Env) (head : Bool) : CallsShaped (overflowCalls env head) := by
   unfold overflowCalls CallsShaped
   cases env.upAtSend <;> simp
 
-theorem overflowCalls_up : engineCmds Env.up (overflowCalls Env.up) = overflowCmds := by
+theorem overflowCalls_up (head : Bool) : engineCmds Env.up (overflowCalls Env.up head) = overflowCmds head := by
   simp [overflowCalls_cmds, Env.up, overflowCmds]
 
 theorem process_ok_false (srv : Server) (env : Env) (data : Bytes) (p : ParsedReq)
@@ -655,10 +656,10 @@ theorem connectionDecision_default (h : Headers) (hv : hFind h (ascii "Connectio
 
 /-! ### the error arm -/
 
-theorem errorWire_eq (s : Nat) :
-    errorWire s = toWire s (statusText s)
+theorem errorWire_eq (s : Nat) (head : Bool) :
+    errorWire s head = toWire s (statusText s)
       [(ascii "Connection", ascii "close"), (ascii "Content-Length", dec (statusText s).length), (ascii "Content-Type", ascii "text/plain")]
-      (statusText s) := by
+      (if head then [] else statusText s) := by
   unfold errorWire
   simp only
   congr 1
